@@ -41,7 +41,7 @@ def _parse_tuple(line):
 
 
 def run(module, cfg, workers=16, env=None, timeout=3600, simulate=None, depth=None, coverage=False,
-        cwd=None, seed=None, heap='8g', keep_out=True, deadlock=None, dfs=False):
+        cwd=None, seed=None, heap='8g', keep_out=True, deadlock=None, dfs=False, sample_target=None):
     """Run TLC on spec/mc/<module>.tla with <cfg>.  Returns TlcResult."""
     os.makedirs(WORK, exist_ok=True)
     cwd = cwd or common.MC
@@ -81,18 +81,27 @@ def run(module, cfg, workers=16, env=None, timeout=3600, simulate=None, depth=No
         r.error = 'timeout after %ss' % timeout
     r.wall = time.time() - t0
     shutil.rmtree(meta, ignore_errors=True)
-    _parse(r, out)
-    if keep_out:
+    _parse(r, out, sample_target, seed or 0)
+    if keep_out or r.error or r.violated or not r.ok:
         r.out = out if len(out) < 2_000_000 else out[:1_000_000] + '\n...\n' + out[-200_000:]
     return r
 
 
-def _parse(r, out):
-    for line in out.splitlines():
+def _parse(r, out, sample_target=None, salt=0):
+    import zlib
+    lines = out.splitlines()
+    mod = 1
+    r.printed_total = sum(1 for l in lines if l[:1] == '"' and l.endswith('"'))
+    if sample_target and r.printed_total > sample_target:
+        mod = -(-r.printed_total // sample_target)        # keep a deterministic 1/mod sample of the printed JSON rows (bounded memory)
+    r.sample_mod = mod
+    for line in lines:
         if not line:
             continue
         c = line[0]
         if c == '"' and line.endswith('"'):
+            if mod > 1 and (zlib.crc32(line.encode()) + salt) % mod:
+                continue
             try:
                 s = json.loads(line)
                 try:
